@@ -481,3 +481,77 @@ def rule_extsig(rep, m, fn, prefixes=('scipy.optimize.',), rule='R-SIG(ext)'):
                else 'all %d keywords accepted by the installed %s' % (len(c.keywords), f), m.rel, c.lineno,
                what='keywords passed to %s exist in the installed signature (TypeError otherwise)' % f)
     return n_sites
+
+
+# ---------------------------------------------------------------------------------------------------------------------
+# R-CLOSURE: a function object created inside a loop / comprehension that reads the iteration variable reads its LAST value
+def rule_closure(rep, m, fn, rule='R-CLOSURE'):
+    """lambdas / nested defs created per iteration that refer to the iteration variable by name (not through a default argument)
+    and outlive the iteration all see the value of the last iteration (late binding)"""
+    bad = []
+    n_sites = 0
+    for node in own_nodes(fn) if False else ast.walk(fn):
+        if not isinstance(node, (ast.Lambda, ast.FunctionDef)) or node is fn:
+            continue
+        a = node.args
+        own_params = {x.arg for x in a.posonlyargs + a.args + a.kwonlyargs} | ({a.vararg.arg} if a.vararg else set()) | ({a.kwarg.arg} if a.kwarg else set())
+        body_nodes = [node.body] if isinstance(node, ast.Lambda) else node.body
+        loads, stores = set(), set()
+        for b in body_nodes:
+            for x in ast.walk(b):
+                if isinstance(x, ast.Name):
+                    (loads if isinstance(x.ctx, ast.Load) else stores).add(x.id)
+        free = loads - own_params - stores
+        if not free:
+            continue
+        # enclosing iteration constructs up to fn
+        child, par = node, getattr(node, '_parent', None)
+        while par is not None and par is not fn:
+            itervars = set()
+            kind = None
+            if isinstance(par, (ast.ListComp, ast.SetComp, ast.GeneratorExp, ast.DictComp)):
+                for g in par.generators:
+                    itervars |= {x.id for x in ast.walk(g.target) if isinstance(x, ast.Name)}
+                kind = 'comprehension'
+            elif isinstance(par, (ast.For, ast.AsyncFor)) and child is not par.iter:
+                itervars = {x.id for x in ast.walk(par.target) if isinstance(x, ast.Name)}
+                kind = 'loop'
+            captured = free & itervars
+            if captured:
+                n_sites += 1
+                # consumed inside the iteration: called at once, or passed directly to a call in the same statement (loops only)
+                p1 = getattr(node, '_parent', None)
+                called_now = isinstance(p1, ast.Call) and p1.func is node
+                passed = kind == 'loop' and isinstance(p1, (ast.Call, ast.keyword))
+                local_use = False
+                if kind == 'loop' and isinstance(p1, ast.Assign) and len(p1.targets) == 1 and isinstance(p1.targets[0], ast.Name):
+                    # bound to a name that is only called / passed on inside the same iteration
+                    t = p1.targets[0].id
+                    inside = {id(x) for x in ast.walk(par)}
+                    uses = [x for x in ast.walk(fn) if isinstance(x, ast.Name) and x.id == t and isinstance(x.ctx, ast.Load)]
+                    escapes = False
+                    for u in uses:
+                        up = getattr(u, '_parent', None)
+                        if id(u) not in inside:
+                            escapes = True
+                        elif isinstance(up, ast.Call) and (up.func is u or u in up.args):
+                            f_ = dotted(up.func) or ''
+                            if f_.split('.')[-1] in ('append', 'extend', 'insert', 'setdefault', 'add'):
+                                escapes = True
+                        elif isinstance(up, ast.keyword):
+                            pass
+                        else:
+                            escapes = True
+                    local_use = bool(uses) and not escapes
+                if not (called_now or passed or local_use):
+                    bad.append('%s at line %d reads %s of the enclosing %s by name: every such function sees the last value'
+                               % ('lambda' if isinstance(node, ast.Lambda) else 'def ' + node.name, node.lineno, sorted(captured), kind))
+            child, par = par, getattr(par, '_parent', None)
+    q = '%s:%s' % (m.rel, getattr(fn, '_qualname', fn.name))
+    if bad:
+        for b in bad:
+            rep.ob(rule, q, False, b, m.rel, fn.lineno, what='functions created per iteration bind the iteration value (default argument), not the variable')
+    elif n_sites:
+        rep.ob(rule, q, True, '%d per-iteration functions, all consumed within their iteration' % n_sites, m.rel, fn.lineno,
+               what='functions created per iteration bind the iteration value (default argument), not the variable')
+    return n_sites, bad
